@@ -174,6 +174,19 @@ func execC10(seg []Ev) []Ev {
 					e["names"] = nj
 				}
 			}
+			// C18: a parser that parsed another template before (and, every other time, was cleared since) reports the names of THIS one
+			rp := mparsers.NewMustacheParser()
+			guarded(func() { rp.SetTemplate("{{zq}}{{#zw}}x{{/zw}}{{{ZQ2}}}") })
+			if len(text)%2 == 1 {
+				guarded(func() { rp.Clear() })
+			}
+			if oc3, _ := guarded(func() { err = rp.SetTemplate(text) }); oc3 == "ok" && err == nil {
+				nj := []any{}
+				for _, n := range rp.VariableNames() {
+					nj = append(nj, []any{cps(n), cps(strings.ToLower(n))})
+				}
+				e["names_reused"] = nj
+			}
 			var aj []any
 			keys := autoKeys
 			sort.Strings(keys)
